@@ -3,6 +3,7 @@ package props
 import (
 	"encoding/json"
 	"fmt"
+	"github.com/apache/yunikorn-core/pkg/common/security"
 	"github.com/apache/yunikorn-core/pkg/scheduler/objects"
 	"os"
 	"runtime"
@@ -361,6 +362,7 @@ func c14ScenariosUnchecked() []c14Scenario {
 		mkQueueMaxRace("S29-queue-max-commit-vs-rm-placed-allocation"),
 		mkNodeRace("S30-node-commit-vs-rm-placed-allocation"),
 		mkQueueRemoval("S31-parent-queue-removal-vs-cleaner"),
+		mkACLRace("S32-submission-creating-a-queue-vs-acl-reload"),
 		mkMaxApps("S15-maxapps-restart-vs-schedule"),
 		mkLifecycle("S16-completing-timer-vs-new-ask"),
 		mkUGMReload("S17-limits-reload-vs-schedule"),
@@ -464,6 +466,39 @@ func mkQueueRemoval(name string) c14Scenario {
 	s.Configs = []string{c14Conf, c14Conf2, c14Conf3, c14Conf4}
 	s.Prefix = []world.Op{op("NODE_ADD", "n1"), {K: "CONFIG", N: 2}}
 	return c14Scenario{Name: name, Scn: s, Threads: [][]world.Op{{{K: "CONFIG", N: 3}}, {op("CLEAN_QUEUES")}, {op("REST")}}}
+}
+
+// an application whose placement creates a dynamic queue || a reload that takes the user's access to the parent away
+func mkACLRace(name string) c14Scenario {
+	conf := func(acl string) string {
+		return `partitions:
+  - name: default
+    placementrules:
+      - name: provided
+        create: true
+    queues:
+      - name: root
+        queues:
+          - name: tenants
+            parent: true
+            submitacl: "` + acl + `"
+          - name: other
+            submitacl: "*"
+`
+	}
+	s := &world.Scenario{
+		Name:    "c14-" + name,
+		Configs: []string{conf("u1"), conf("u2")},
+		Nodes:   []world.NodeSpec{{ID: "n1", Cap: world.M(4)}},
+		Apps: []world.AppSpec{
+			{ID: "dynapp", Queue: "root.tenants.u1q", User: "u1", Groups: []string{"g1"}},
+			{ID: "app2", Queue: "root.other", User: "u2", Groups: []string{"g2"}},
+		},
+		Asks:     []world.AskSpec{{Key: "d1", App: "dynapp", Res: world.M(1), Create: 1001}},
+		Alphabet: []string{"SCHEDULE", "APP_ADD", "ASK", "CONFIG"},
+		Prefix:   []world.Op{op("NODE_ADD", "n1"), op("APP_ADD", "app2")},
+	}
+	return c14Scenario{Name: name, Scn: s, Threads: [][]world.Op{{op("APP_ADD", "dynapp")}, {{K: "CONFIG", N: 1}}, {op("REST")}}}
 }
 
 // max applications: the scheduling cycle starts a waiting application || the Completing one is restarted by a new ask ||
@@ -570,6 +605,9 @@ type c14Probe struct {
 	found   []c14ProbeHit
 	steps   int
 	raising int
+	root    *objects.Queue
+	known   map[*objects.Queue]bool           // queues seen so far (configured ones and the dynamic ones as they appear)
+	adders  map[int]map[string]*world.AppSpec // thread id -> queue path (lower case) -> application it submits there
 }
 
 type c14ProbeHit struct {
@@ -589,7 +627,25 @@ func newC14Probe(w *world.World, sc c14Scenario) *c14Probe {
 			walk(c)
 		}
 	}
-	walk(pc.GetQueue("root"))
+	p.root = pc.GetQueue("root")
+	walk(p.root)
+	p.known = map[*objects.Queue]bool{}
+	for _, q := range p.queues {
+		p.known[q] = true
+	}
+	p.adders = map[int]map[string]*world.AppSpec{}
+	for i, ops := range sc.Threads {
+		for _, o := range ops {
+			if o.K == "APP_ADD" {
+				if spec := sc.Scn.App(o.A); spec != nil {
+					if p.adders[i] == nil {
+						p.adders[i] = map[string]*world.AppSpec{}
+					}
+					p.adders[i][strings.ToLower(spec.Queue)] = spec
+				}
+			}
+		}
+	}
 	sort.Slice(p.queues, func(i, j int) bool { return p.queues[i].GetQueuePath() < p.queues[j].GetQueuePath() })
 	p.nodes = pc.GetNodes()
 	sort.Slice(p.nodes, func(i, j int) bool { return p.nodes[i].NodeID < p.nodes[j].NodeID })
@@ -633,6 +689,25 @@ func (p *c14Probe) onPoint(ran int) {
 		}
 		p.lastQ[i] = a
 	}
+	// a dynamic queue that appears through a step of the event handler that submits an application into it: the user has
+	// submit access through the queue's parent chain at that moment (C17). The creation and its access check run under the
+	// partition lock, and so does a reload, so no reload can get between the two.
+	var scan func(q *objects.Queue)
+	scan = func(q *objects.Queue) {
+		for _, c := range q.VerifPeekChildren() {
+			if !p.known[c] {
+				p.known[c] = true
+				if spec := p.adders[ran][c.QueuePath]; spec != nil {
+					if !q.VerifPeekSubmitAccess(security.UserGroup{User: spec.User, Groups: spec.Groups}) {
+						p.found = append(p.found, c14ProbeHit{rule: "step-C17-dynamic-queue-created-without-access", object: c.QueuePath, where: p.parked,
+							detail: fmt.Sprintf("a step of the event handler created queue %s for application %s of user %s, who has no submit access through %s at that moment", c.QueuePath, spec.ID, spec.User, q.QueuePath)})
+					}
+				}
+			}
+			scan(c)
+		}
+	}
+	scan(p.root)
 	for i, n := range p.nodes {
 		a, avail := n.VerifPeek()
 		if p.sched[ran] {
